@@ -65,6 +65,7 @@ func vfC17(w *vfWorld) {
 		{ID: "rw", Path: "^/rw/(.*)$", Rewrite: "/new/$1", Host: "up2.sim"},
 		{ID: "rwdeep", Path: "^/rw/deep/(.*)$", Rewrite: "/d/$1", Host: "up3.sim"},
 		{ID: "rwswap", Path: "^/swap/([a-z]+)/([a-z0-9]+)$", Rewrite: "/s/$2/$1", Host: "up4.sim"},
+		{ID: "rwmid", Path: "/legacy/(.*)", Rewrite: "/v2/$1", Host: "up4.sim"}, // unanchored: the match may sit mid-path
 		{ID: "rwq", Path: "^/art/([a-z0-9.-]+)$", Rewrite: "/article?id=$1&src=rule", Host: "up3.sim"},
 		{ID: "static", Path: "/static-ok", Static: true},
 		{ID: "files", Path: "/files/", File: "pub"},
@@ -171,7 +172,7 @@ func vfC17(w *vfWorld) {
 	nreq := 40 + t.Choice("c17.nreq", 40)
 	for i := 0; i < nreq; i++ {
 		// path
-		prefix := vfPick(t, "c17.prefix", []string{"/", "/api/", "/api/v2/", "/apix/", "/based/", "/rw/", "/rw/deep/", "/other/", "/exact", "/swap/", "/static-ok", "/api", "/exactx", "/art/", "/files/", "/files/", "/docs/",
+		prefix := vfPick(t, "c17.prefix", []string{"/", "/api/", "/api/v2/", "/apix/", "/based/", "/rw/", "/rw/deep/", "/other/", "/exact", "/swap/", "/static-ok", "/api", "/exactx", "/art/", "/files/", "/files/", "/docs/", "/tenants/acme/legacy/", "/legacy/",
 			// an encoded slash or letter right at a prefix boundary: which upstream owns the path depends on whether
 			// routing looks at the encoded or the decoded path (raw-path proxying)
 			"/robots.txt.gz", "/robots.txt/v2", "/robots.txt;v=2", "/robots.txtx", // merely START like a path the proxy answers itself
